@@ -224,6 +224,7 @@ type wcaseJSON struct {
 	Kind string `json:"kind"`
 	RL   string `json:"rl"` // CLI spelling
 	WL   string `json:"wl"`
+	PP   bool   `json:"proxy_protocol,omitempty"` // the listener also reads a PROXY protocol header
 }
 
 // runWrapCase goes through SizeSuffix.Set and forwarder.Listener.Listen (net.go).
@@ -236,6 +237,9 @@ func runWrapCase(c wcaseJSON) string {
 		panic(err)
 	}
 	l := &forwarder.Listener{ListenerConfig: forwarder.ListenerConfig{Address: "127.0.0.1:0", ReadLimit: rl, WriteLimit: wl}}
+	if c.PP {
+		l.ProxyProtocolConfig = forwarder.DefaultProxyProtocolConfig()
+	}
 	if err := l.Listen(); err != nil {
 		panic(err)
 	}
@@ -500,7 +504,10 @@ func main() {
 		texts := []string{"off", "OFF", "0", "1", "1B", "1k", "1.5Ki", "1M", "4Mi", "300M", "1G"}
 		for _, a := range texts {
 			for _, b := range texts {
-				wcs = append(wcs, wcaseJSON{"wrap", a, b})
+				wcs = append(wcs, wcaseJSON{"wrap", a, b, false})
+				if (a == "1M" || a == "off" || a == "0") && (b == "4Mi" || b == "off" || b == "1k") {
+					wcs = append(wcs, wcaseJSON{"wrap", a, b, true})
+				}
 			}
 		}
 		for _, dir := range []string{"read", "write"} {
